@@ -127,6 +127,41 @@ def analyse(rec, events, runs, label, gens=None):
                       case={"kind": "export"})
 
 
+# fields whose declared type does not fix the Python type of a number (Any, Union, bare tuple / frozenset)
+UNTYPED_FIELDS = {"G15": ("anyv", "tag"), "G10": ("t", "fs")}
+
+
+def _kinds(x) -> str:
+    if isinstance(x, bool):
+        return "b"
+    if isinstance(x, int):
+        return "i"
+    if isinstance(x, float):
+        return "f"
+    if isinstance(x, (list, tuple)):
+        return "(" + ",".join(_kinds(e) for e in x) + ")"
+    return "-"
+
+
+def untyped_numeric_twin(g, kw, allcalls) -> bool:
+    """Is there another call of generator `g` whose untyped fields hold numbers EQUAL to this call's but of another Python type
+    (`1`, `1.0`, `True`; `0.0`, `-0.0`), all other parameters being equal?  Such calls are one call to the cache (Python equality),
+    and the name is spelled after whichever came first."""
+    fields = UNTYPED_FIELDS.get(g)
+    if not fields:
+        return False
+    for g2, _, kw2 in allcalls:
+        if g2 != g or kw2 is kw:
+            continue
+        try:
+            if kw2 == kw and any(_kinds(kw2.get(f)) != _kinds(kw.get(f)) or repr(kw2.get(f)) != repr(kw.get(f)) for f in fields
+                                 if isinstance(kw.get(f), (bool, int, float, list, tuple)) or isinstance(kw2.get(f), (bool, int, float, list, tuple))):
+                return True
+        except Exception:
+            continue
+    return False
+
+
 def child(vs, order_seed, n, hashseed):
     p = subprocess.run([env.PY, "-m", "hv.checks.c09_prog", str(vs), str(order_seed), str(n)], capture_output=True, text=True,
                        env=env.child_env({"PYTHONHASHSEED": hashseed}), cwd=str(env.VERIF), timeout=300)
@@ -156,14 +191,22 @@ def run(ctx, rec):
         if base is None:
             base = (k, m)
             continue
+        reported = set()
+        allcalls = c09_prog.calls(vs, n)
         for i in sorted(set(base[1]) | set(m), key=int):
             a, b = base[1].get(i), m.get(i)
             if a != b:
-                g, form, kw = c09_prog.calls(vs, n)[int(i)]
+                g, form, kw = allcalls[int(i)]
+                twin = untyped_numeric_twin(g, kw, allcalls)
+                if (g, twin) in reported:
+                    continue
+                reported.add((g, twin))
                 rec.violation("name-depends-on-process-or-order",
-                              f"call #{i} {g}({kw}) is named {a} in process {base[0]} and {b} in process {k} (different PYTHONHASHSEED / call order)",
-                              case={"kind": "process", "call": [g, form, kw], "value_seed": vs})
-                break
+                              f"call #{i} {g}({kw}) is named {a} in process {base[0]} and {b} in process {k} (different PYTHONHASHSEED / call order)"
+                              + ("; another call of this generator gives an untyped field an EQUAL number of another Python type (1 / 1.0 / True)" if twin else ""),
+                              case={"kind": "process", "call": [g, form, kw], "value_seed": vs}, untyped_numeric_twin=twin)
+                if len(reported) >= 6:
+                    break
     rec.extra["processes"] = len(maps)
     rec.exhaustive = False
 
